@@ -94,6 +94,24 @@ fn observe(m: &SlotMap, r: &Ref, universe: &[Slot]) -> Result<u64, String> {
             chk!("compose-inverse-total", m.compose(&inv) == id);
         }
     }
+    // values_mut sees the values in key order and writes through
+    {
+        let mut c = m.clone();
+        let seen: Vec<Slot> = c.values_mut().map(|x| *x).collect();
+        chk!("values_mut", seen == pairs.iter().map(|p| p.1).collect::<Vec<_>>());
+        if let Some((k0, v0)) = pairs.first().copied() {
+            for x in c.values_mut() {
+                *x = v0;
+            }
+            chk!("values_mut-write", c.get(k0) == Some(v0) && c.len() == r.len() && c.values().len() == 1);
+        }
+    }
+    // bijection_from_fresh_to: keys are brand-new, pairwise distinct slots; values are exactly the given set
+    {
+        let set = m.values();
+        let b = SlotMap::bijection_from_fresh_to(&set);
+        chk!("bijection_from_fresh_to", b.values() == set && b.len() == set.len() && b.is_bijection() && b.keys().iter().all(|k| !universe.contains(k) && k.to_string().starts_with("$f")));
+    }
     // identity
     let id = SlotMap::identity(&m.keys());
     chk!("identity", id.iter().collect::<Vec<_>>() == r.keys().map(|k| (*k, *k)).collect::<Vec<_>>());
